@@ -1,4 +1,6 @@
 import CCV.Drv.C13
+import CCV.Drv.C16
+import CCV.Drv.C04
 /-
   `ccv-model`: the executable side of the hand-written models.  One request per input line,
   `<property> <op> <args…>`, one canonical answer per output line.  Imports only `CCV.Model.*`
@@ -9,6 +11,8 @@ open CCV.Drv
 def dispatch (line : String) : String :=
   match line.trimAscii.toString.splitOn " " with
   | "C13" :: rest => C13.handle rest
+  | "C16" :: rest => C16.handle rest
+  | "C04" :: rest => C04.handle rest
   | _ => "BAD-OP"
 
 partial def loop (h : IO.FS.Stream) (out : IO.FS.Stream) : IO Unit := do
